@@ -35,6 +35,8 @@ type Profile struct {
 	WideFanIn  int // if >0: probability (percent) of a wide fan-in shape with up to 40 producers
 	MaxDelayMs int
 	Gates      bool
+	// MoreTwoRefs (0-5) raises the share of binary operations whose second operand is a reference too (40% + 10% each).
+	MoreTwoRefs int
 	// PreferProduced is the percentage of references biased towards outputs the scripted outcomes produce.
 	PreferProduced int
 	// ForeachFailures lets foreach items end in error / crash (C08, C13).
@@ -143,7 +145,7 @@ func (g *genCtx) genExpr(typ string, depth int, label string) *Expr {
 				if a != nil {
 					g.label("op:concat")
 					b := &Expr{K: "lit", Lit: g.genLit("string", label+".b")}
-					if rapid.IntRange(0, 9).Draw(g.t, label+".b.ref?") < 4 {
+					if rapid.IntRange(0, 9).Draw(g.t, label+".b.ref?") < 4+g.p.MoreTwoRefs {
 						if x := g.genExpr("string", 0, label+".b.x"); x != nil {
 							g.label("op:two-references")
 							b = x
@@ -193,7 +195,7 @@ func (g *genCtx) genExpr(typ string, depth int, label string) *Expr {
 				op := rapid.SampledFrom([]string{"+", "-", "*"}).Draw(g.t, label+".op")
 				g.label("op:arith")
 				b := &Expr{K: "lit", Lit: IntLit(rapid.Int64Range(0, 9).Draw(g.t, label+".b"))}
-				if rapid.IntRange(0, 9).Draw(g.t, label+".b.ref?") < 4 {
+				if rapid.IntRange(0, 9).Draw(g.t, label+".b.ref?") < 4+g.p.MoreTwoRefs {
 					if x := g.genIntNoPlugin(0, label+".b.x"); x != nil {
 						g.label("op:two-references")
 						b = x
@@ -206,7 +208,7 @@ func (g *genCtx) genExpr(typ string, depth int, label string) *Expr {
 				op := rapid.SampledFrom([]string{"<", ">", "==", "!="}).Draw(g.t, label+".op")
 				g.label("op:compare")
 				b := &Expr{K: "lit", Lit: IntLit(rapid.Int64Range(0, 20).Draw(g.t, label+".b"))}
-				if rapid.IntRange(0, 9).Draw(g.t, label+".b.ref?") < 4 {
+				if rapid.IntRange(0, 9).Draw(g.t, label+".b.ref?") < 4+g.p.MoreTwoRefs {
 					if x := g.genIntNoPlugin(0, label+".b.x"); x != nil {
 						g.label("op:two-references")
 						b = x
